@@ -21,7 +21,7 @@ def gen_history(seed, max_edits=8, features=None, inproc_only=False, deps_ops=Tr
     F = dict(features or {})
     # swarm: switch program features on/off per run
     F.setdefault("p_two_packages", 0.3)
-    for k, p in (("p_hidden", 0.5), ("p_alias", 0.5), ("p_recur", 0.5), ("p_explicit", 0.6), ("p_setc", 0.7),
+    for k, p in (("p_hidden", 0.5), ("p_alias", 0.5), ("p_wrapped", 0.5), ("p_recur", 0.5), ("p_explicit", 0.6), ("p_setc", 0.7),
                  ("p_posdef", 0.8), ("p_kwdef", 0.7), ("p_salt", 0.4)):
         if k not in F and rng.random() > p:
             F[k] = 0.0
@@ -80,6 +80,8 @@ def apply_with_discipline(prog, e, n):
             for c in a["calls"]:
                 if c["form"] == "alias" and c["to"] == eid:
                     touched.add(("a", eid))
+                if c["form"] == "wrapped" and c["to"] == eid:
+                    touched.add(("w", eid))
     return p, touched
 
 
@@ -137,7 +139,7 @@ def deliver(prog_before, prog_after, touched, e, delivery):
         if delivery == "inproc-module":
             world.load_module(name, progen.render_module(prog_after, mi))
         else:
-            order = {"g": 0, "b": 0, "n": 1, "a": 2}
+            order = {"g": 0, "b": 0, "n": 1, "a": 2, "w": 2}
             for u in sorted(mods[mi], key=lambda u: (order[u[0]], u[1])):
                 world.load_module(name, progen.render_unit(prog_after, u))
 
